@@ -19,6 +19,11 @@ package outbound
 //   sel <t|u> <4|6> <isDns> <dom> <strict> <excl|->   SelectWithExclusionResult
 //   rand <type> <excl|->                       GetRandExcluded on one set (distinct answers of several draws)
 //   same <type>                                nothing happened (a probe that was skipped): print the set again
+//   restore <dialer> <a;ma;l,l,..|..x6>        RestoreHealthSnapshot with these six collections (type order)
+//   capture                                    CaptureReloadSelectionFallback (answer: the recorded node per type)
+//   floor <f0,..,f5>                           EnsureReloadSelectionFloor with that fallback (- = none)
+// Stream c15g2 carries the same grammar for the second group of a scenario (dialer indices of that group).
+// Latencies print as `T` when equal to dialer.Timeout; "nobody" prints as `nil` without a latency.
 // type: 0 dns-udp4 1 dns-udp6 2 tcp4 3 tcp6 4 data-udp4 5 data-udp6.  All times in ns.
 
 import (
@@ -1051,6 +1056,20 @@ func TestVerifC15(t *testing.T) {
 		w.sel(false, false, false, 0, true, -1, 0)
 		w.sample(2, 0, 101)
 		w.sel(false, false, false, 0, true, -1, 0)
+		_ = w.g.Close()
+	}
+	// interpretation witness: the min clause is per health domain and data-UDP is never measured.
+	// a = 300, b = 200, c = 20 on dns-udp4 and tcp4; a tcp4 request gets c, a data-udp4 request gets a.
+	{
+		w := c15NewWorld(st3, stats, 3, false, false)
+		w.makeGroup(0, consts.DialerSelectionPolicy_MinLastLatency, 0, []int64{0, 0, 0})
+		for _, t := range []int{0, 2} {
+			w.sample(t, 0, 300)
+			w.sample(t, 1, 200)
+			w.sample(t, 2, 20)
+		}
+		w.sel(false, false, false, 0, true, -1, 0)
+		w.sel(true, false, false, 2, true, -1, 0)
 		_ = w.g.Close()
 	}
 	// reload witness (design_notes/C15.md, reload): node 0 measured 100 is the choice, node 1 measured
